@@ -343,6 +343,7 @@ inductive Op where
   | itemsTop (top : Bytes)       -- getItemIter(top)
   | fullItems (top : Bytes)      -- getFullItemIter(top)
   | trim (top : Bytes)
+  | bad (isPin : Bool) (k : Bytes)   -- put/pin/add whose value (or a batch element, at any position) is not str/bytes: lmdb raises TypeError
 deriving Repr
 
 inductive Res where
@@ -419,6 +420,19 @@ def step (kind : Kind) (db : Db) : Op → Db × Res
     | _ => liftRo db .pairs (ioItems (topItems db top))
   | .fullItems top => (db, .pairs (topItems db top))
   | .trim top => ((remTop db top).1, .bool (remTop db top).2)
+  | .bad isPin k =>
+    -- the TypeError comes out of the write transaction, which is aborted: no effect - EXCEPT that the io kinds' pin
+    -- removes the old values in a transaction of its own first (unless the tree has made pin atomic: regenerated flag)
+    -- (lmdb looks at the key first: an unstorable key wins over the bad value)
+    match kind with
+    | .plain => (db, .raise (if validKey k then .typeError else .keyError))
+    | _ =>
+      if !validKey (suffix k 0) then (db, .raise .badValsize)
+      else if isPin && !Hio.Gen.pinAtomic then
+        match remIoVals db k with
+        | .ok (db', _) => (db', .raise .typeError)
+        | .error x => (db, .raise x)
+      else (db, .raise .typeError)
 
 /-- what `get(k)` answers, as a `Res` -/
 def observe (kind : Kind) (db : Db) (k : Bytes) : Res := (step kind db (.get k)).2
